@@ -31,29 +31,31 @@ Reward(s, i, r) ==
   ELSE [FeeOut(s, app, ST, "lock", r) EXCEPT !.lockers[i].net = @ + r, !.dep[app] = @ + r]
 RewardOk(s, i, r) == r >= 0 /\ (r > 0 => CanPayOut(s, s.lockers[i].app, ST, r))
 
-CreateLocker(s, u, app, amt) ==
-  IF amt <= 0 \/ HasLocker(s, u, app) \/ s.bal[u][ST] < amt THEN KFail(s)
+(* every locker message names (app, asset[, locker id]); arguments that do not belong together are rejected:    *)
+(* only the stable asset is whitelisted for lockers, and a locker is only reachable under its own app           *)
+CreateLocker(s, u, app, asset, amt) ==
+  IF asset # ST \/ amt <= 0 \/ HasLocker(s, u, app) \/ s.bal[u][ST] < amt THEN KFail(s)
   ELSE KOk([s EXCEPT !.bal = BMove(@, u, "lock", ST, amt), !.nl = @ + 1, !.dep[app] = @ + amt, !.ids[app] = Append(@, s.nl + 1),
                      !.lockers = Append(@, [id |-> s.nl + 1, owner |-> u, app |-> app, net |-> amt])])
 
-DepositLocker(s, u, app, id, amt, r) ==
+DepositLocker(s, u, app, asset, id, amt, r) ==
   LET i == LIdx(s.lockers, id) IN
-  IF i = 0 \/ amt <= 0 THEN KFail(s)
+  IF i = 0 \/ amt <= 0 \/ asset # ST THEN KFail(s)
   ELSE IF s.lockers[i].owner # u \/ s.lockers[i].app # app \/ ~RewardOk(s, i, r) THEN KFail(s)
   ELSE LET s1 == Reward(s, i, r) IN
        IF s1.bal[u][ST] < amt THEN KFail(s)
        ELSE KOk([s1 EXCEPT !.bal = BMove(@, u, "lock", ST, amt), !.lockers[i].net = @ + amt, !.dep[app] = @ + amt])
 
-WithdrawLocker(s, u, app, id, amt, r) ==
+WithdrawLocker(s, u, app, asset, id, amt, r) ==
   LET i == LIdx(s.lockers, id) IN
-  IF i = 0 \/ amt <= 0 THEN KFail(s)
+  IF i = 0 \/ amt <= 0 \/ asset # ST THEN KFail(s)
   ELSE IF s.lockers[i].owner # u \/ s.lockers[i].app # app \/ s.lockers[i].net < amt \/ ~RewardOk(s, i, r) THEN KFail(s)
   ELSE LET s1 == Reward(s, i, r) IN
        KOk([s1 EXCEPT !.bal = BMove(@, "lock", u, ST, amt), !.lockers[i].net = @ - amt, !.dep[app] = @ - amt])
 
-CloseLocker(s, u, app, id, r) ==
+CloseLocker(s, u, app, asset, id, r) ==
   LET i == LIdx(s.lockers, id) IN
-  IF i = 0 THEN KFail(s)
+  IF i = 0 \/ asset # ST THEN KFail(s)
   ELSE IF s.lockers[i].owner # u \/ s.lockers[i].app # app \/ ~RewardOk(s, i, r) THEN KFail(s)
   ELSE LET s1 == Reward(s, i, r)
            n == s1.lockers[i].net
@@ -65,6 +67,19 @@ RewardCalc(s, app, id, r) ==
   IF i = 0 THEN KFail(s)
   ELSE IF s.lockers[i].app # app \/ ~RewardOk(s, i, r) THEN KFail(s)
   ELSE KOk(Reward(s, i, r))
+
+(* Governance changes the locker saving rate of (app, stable asset) through the collector lookup table           *)
+(* (WasmUpdateCollectorLookupTable -> LockerIterateRewards): the savings of EVERY locker of the app are settled  *)
+(* first. rs[i] = reward credited to s.lockers[i] (environment amounts, 0 for lockers of other apps).            *)
+RECURSIVE KSum0(_)
+KSum0(q) == IF q = <<>> THEN 0 ELSE Head(q) + KSum0(Tail(q))
+LsrChangeOk(s, app, rs) == /\ Len(rs) = Len(s.lockers)
+                           /\ \A i \in 1..Len(rs) : rs[i] >= 0 /\ (s.lockers[i].app # app => rs[i] = 0)
+                           /\ CanPayOut(s, app, ST, KSum0(rs))
+LsrChange(s, app, rs) ==
+  LET tot == KSum0(rs) IN
+  [FeeOut(s, app, ST, "lock", tot) EXCEPT !.lockers = [i \in 1..Len(s.lockers) |-> [s.lockers[i] EXCEPT !.net = @ + rs[i]]],
+                                          !.dep[app] = @ + tot]
 
 (* ---------------- vault messages as fee generators (stability fee 0: no interest) ---------------- *)
 HasVault(s, u, app) == \E i \in 1..Len(s.vaults) : s.vaults[i].owner = u /\ s.vaults[i].app = app
